@@ -3353,6 +3353,10 @@ def c17_astdiff_tie(ctx, jobs, untouched=None):
             ctx.count("astdiff_model_trouble")
         # the theorems about lists of nodes (untouched_neighbours_left_alone) have a hypothesis on the old snapshot:
         # evaluated here on the declarations of every real snapshot
+        sl, tw = sx_field(sb_[2:], "samelen"), sx_field(sb_[2:], "twins")
+        if sl is not None and tw is not None:
+            # the hypotheses of untouched_elements_paired_with_themselves on the declarations of this step
+            ctx.count("astdiff_decls_in_place_without_twins" if (sl[0] == "1" and tw[0] == "0") else "astdiff_decls_length_changed_or_twins")
         sf = sx_field(sb_[2:], "sepfail")
         if sf is not None:
             ctx.count("astdiff_separation_holds" if sf[0] == "0" else "astdiff_separation_fails")
